@@ -829,7 +829,9 @@ class Class(CanContainImportsDocumentable):
         elif name in self._localNameToFullName_map:
             return self._localNameToFullName_map[name]
         else:
-            return self.parent._localNameToFullName(name)
+            # The scopes of classes do not nest: what the body of a class 
+            # does not bind is looked up in the module, not in an enclosing class.
+            return self.module._localNameToFullName(name)
 
     @property
     def constructor_params(self) -> Mapping[str, Optional[ast.expr]]:
